@@ -731,6 +731,67 @@ Definition req_line (fmt : bytes) (base : renv) (s : option preq) : option (res 
   match s with Some p => Some (expand_env (req_env base p) fmt) | None => None end.
 
 (* ------------------------------------------------------------------------------------------ *)
+(* D. the entry list of a request: Go slices over backing arrays                                  *)
+(* ------------------------------------------------------------------------------------------ *)
+(* log.Logger.entries(path): the entries of every rule whose scope matches, collected by
+   `entries = append(entries, rule.Entries...)` starting from nil.  A rule's Entries slice is a
+   (array, length) pair whose array - built by append in setup - may have spare capacity (three logs on
+   one scope: length 3, capacity 4) and is shared by every request.  Entries are named by their number. *)
+Definition aheap := list (nat * list nat).                 (* array address -> its cells (length = capacity) *)
+Record gslice := { sl_arr : nat; sl_len : nat }.
+Definition sl_read (h : aheap) (s : gslice) : list nat :=
+  match nlook (sl_arr s) h with Some cells => firstn (sl_len s) cells | None => [] end.
+Definition fresh_addr (h : aheap) : nat := S (list_max (map fst h)).
+Definition overwrite (cells : list nat) (k : nat) (xs : list nat) : list nat :=
+  firstn k cells ++ xs ++ skipn (k + length xs) cells.
+(* append(s, xs...): in place when the capacity suffices (the cells behind the length are overwritten in the
+   array every other slice over it sees), else into a new array *)
+Definition go_append (h : aheap) (s : gslice) (xs : list nat) : aheap * gslice :=
+  match nlook (sl_arr s) h with
+  | Some cells =>
+      if Nat.leb (sl_len s + length xs) (length cells)
+      then (nupd (sl_arr s) (fun c => overwrite c (sl_len s) xs) h,
+            {| sl_arr := sl_arr s; sl_len := sl_len s + length xs |})
+      else ((fresh_addr h, firstn (sl_len s) cells ++ xs) :: h,
+            {| sl_arr := fresh_addr h; sl_len := sl_len s + length xs |})
+  | None => (h, s)
+  end.
+(* the code as it is: the list starts from nil, so the first append allocates an array no rule knows;
+   [ms] = the Entries slices of the rules that match the request, in rule order *)
+Definition entries_fresh (h : aheap) (ms : list gslice) : aheap * gslice :=
+  let all := concat (map (sl_read h) ms) in
+  ((fresh_addr h, all) :: h, {| sl_arr := fresh_addr h; sl_len := length all |}).
+(* the seeded variant: the first matching rule's own slice is used and appended to *)
+Definition entries_on_rule_slice (h : aheap) (ms : list gslice) : aheap * gslice :=
+  match ms with
+  | [] => (h, {| sl_arr := fresh_addr h; sl_len := 0 |})
+  | first :: rest => fold_left (fun hs m => go_append (fst hs) (snd hs) (sl_read (fst hs) m)) rest (h, first)
+  end.
+(* requests in flight: [EACompute i ms] request i computes its entry list; [EALog i] it writes its next line
+   (to the log of the entry it finds at its next index NOW) *)
+Inductive eact := EACompute (i : nat) (ms : list gslice) | EALog (i : nat).
+Record eworld := { ew_heap : aheap; ew_slice : list (nat * gslice); ew_logged : list (nat * list nat) }.
+Definition logged_of (w : eworld) (i : nat) : list nat :=
+  match nlook i (ew_logged w) with Some l => l | None => [] end.
+Definition eworld_step (entries : aheap -> list gslice -> aheap * gslice) (w : eworld) (a : eact) : eworld :=
+  match a with
+  | EACompute i ms =>
+      let '(h', s) := entries (ew_heap w) ms in
+      {| ew_heap := h'; ew_slice := (i, s) :: ew_slice w; ew_logged := (i, []) :: ew_logged w |}
+  | EALog i =>
+      match nlook i (ew_slice w) with
+      | Some s =>
+          let done := logged_of w i in
+          match nth_error (sl_read (ew_heap w) s) (length done) with
+          | Some e => {| ew_heap := ew_heap w; ew_slice := ew_slice w; ew_logged := (i, done ++ [e]) :: ew_logged w |}
+          | None => w
+          end
+      | None => w
+      end
+  end.
+Definition eworld_run entries (sched : list eact) (w : eworld) : eworld := fold_left (eworld_step entries) sched w.
+
+(* ------------------------------------------------------------------------------------------ *)
 (* correspondence cases and judge                                                              *)
 (* ------------------------------------------------------------------------------------------ *)
 Inductive case :=
